@@ -175,7 +175,11 @@ def run_case(st: Stats, tree, ordered, copy_mode, url_mode=False):
     files, exp = materialise(tree, ordered, copy_mode)
     opts = dict(page_dir="pages", media_dir="media")
     latin = url_mode == "latin-1"
+    bom = url_mode == "bom"
     url_mode = url_mode is True
+    if bom:
+        # every page file was saved with a UTF-8 byte-order mark in front
+        files = {k: ("\ufeff" + v if (k.startswith("pages/") and k.endswith(".md") and v) else v) for k, v in files.items()}
     if latin:
         # the whole project is written in Latin-1 (`encoding: latin-1`): every page carries a word that is not valid UTF-8 in that encoding
         opts["encoding"] = "latin-1"
@@ -191,8 +195,8 @@ def run_case(st: Stats, tree, ordered, copy_mode, url_mode=False):
     r = fordrun.build(files, opts, stage="write", proj_body="front\n")
     st.evaluations += 1
     st.transitions += 1
-    stratum = f"ordered:{ordered}/copy:{copy_mode}" + ("/project_url" if url_mode else "") + ("/latin-1" if latin else "")
-    inp = dict(tree=repr(tree), ordered=ordered, copy_mode=copy_mode, url_mode=("latin-1" if latin else url_mode), page_files=sorted(f for f in files if f.startswith("pages/")))
+    stratum = f"ordered:{ordered}/copy:{copy_mode}" + ("/project_url" if url_mode else "") + ("/latin-1" if latin else "") + ("/bom" if bom else "")
+    inp = dict(tree=repr(tree), ordered=ordered, copy_mode=copy_mode, url_mode=("latin-1" if latin else ("bom" if bom else url_mode)), page_files=sorted(f for f in files if f.startswith("pages/")))
     kinds = sorted({(e if isinstance(e, str) else e[0]) for e in flatten(tree)})
     feats = dict(ordered=ordered, copy_mode=copy_mode, kinds="".join(kinds), depth=depth_of(tree), url_mode=url_mode)
     st.nontrivial.add(core.digest([repr(tree), ordered, copy_mode, url_mode]))
@@ -363,6 +367,8 @@ def gen_cases(tier):
     for n in (0, 1, 2) if tier == "quick" else (0, 1, 2, 3):
         for t in trees(n, 3):
             yield (t, "absent", "absent", "latin-1")
+            if n <= 2:
+                yield (t, "absent", "absent", "bom")
     if tier == "thorough":
         # 5 entries: page/dir kinds only (the kinds that shape the mirror)
         global KINDS
